@@ -90,7 +90,7 @@ def c04(ctx: Ctx) -> None:
     RP.rule_tactic4_sign(ctx)
     RP.rule_kaykobad_guards(ctx)
     RE.rule_optional_results(ctx)
-    RK.rule_term_kernels(ctx, ["multiply", "add", "remove", "substitute", "isolate", "copy"])
+    RK.rule_term_kernels(ctx, ["multiply", "add", "remove", "substitute", "isolate", "copy", "symbolic"])
     RP.rule_lp_bounds(ctx)
 
 
